@@ -10,6 +10,7 @@ import (
 	"strconv"
 	"strings"
 	"sync"
+	"sync/atomic"
 
 	"github.com/unixpickle/model3d/model2d"
 	"github.com/unixpickle/model3d/model3d"
@@ -197,6 +198,7 @@ func workloads() []workload {
 		{"cached-funcs", "model2d.CacheScalarFunc / toolbox3d.CoordColorFunc.Cached", wCached},
 		{"raycaster", "render3d.RayCaster rendering several images at once", wRayCaster},
 		{"raytracer", "render3d.RecursiveRayTracer / BidirPathTracer rendering several images at once", wRayTracer},
+		{"render-progress", "render3d.RecursiveRayTracer / BidirPathTracer single render with progress reporting (LogFunc) switched on", wRenderProgress},
 		{"meshing", "MarchingCubes/Search/Filter, MarchingSquares, DualContouring worker pools", wMeshing},
 		{"rasterize", "model2d.Rasterizer worker pool", wRaster},
 		{"kmeans", "numerical.KMeans.Iterate/Assign worker pools", wKMeans},
@@ -548,6 +550,45 @@ func wRayTracer(w *wctx) {
 	})
 }
 
+// wRenderProgress: one render at a time, with the optional progress callback set. The
+// renderer's workers are its own (runtime.NumCPU() of them); the callback's state is atomic on the
+// harness side, so any race report concerns the renderer's own bookkeeping. Behavioural part:
+// every report has 0 < frac <= 1 and a mean sample count within the configured limits.
+func wRenderProgress(w *wctx) {
+	obj := sceneObject(w.rng)
+	light := &render3d.ColliderObject{Collider: &model3d.Sphere{Center: model3d.XYZ(2, -2, 4), Radius: 0.5}, Material: &render3d.LambertMaterial{EmissionColor: render3d.NewColor(20)}}
+	full := render3d.JoinedObject{obj, light}
+	cam := render3d.NewCameraAt(model3d.XYZ(0, -5, 2), model3d.XYZ(0, 0, 0), 0.9)
+	runtime.GOMAXPROCS(w.gos)
+	for rep := 0; rep < 3; rep++ {
+		var calls, bad int64
+		minS, maxS := 2, 6
+		logf := func(frac, rate float64) {
+			atomic.AddInt64(&calls, 1)
+			if !(frac > 0 && frac <= 1) || !(rate >= float64(minS)-1e-9 && rate <= float64(maxS)+1e-9) {
+				atomic.AddInt64(&bad, 1)
+			}
+		}
+		img := render3d.NewImage(40+w.rng.Intn(40), 30+w.rng.Intn(30))
+		if rep%2 == 0 {
+			rt := &render3d.RecursiveRayTracer{Camera: cam, MaxDepth: 2, NumSamples: maxS, MinSamples: minS, MaxStddev: 0.05, Antialias: 0.5, LogFunc: logf}
+			rt.Render(img, full)
+		} else {
+			bd := &render3d.BidirPathTracer{Camera: cam, Light: render3d.NewSphereAreaLight(&model3d.Sphere{Center: model3d.XYZ(2, -2, 4), Radius: 0.5}, render3d.NewColor(20)),
+				MaxDepth: 3, NumSamples: maxS, MinSamples: minS, MaxStddev: 0.05, LogFunc: logf}
+			bd.Render(img, obj)
+		}
+		if atomic.LoadInt64(&bad) > 0 {
+			w.behav("render3d.Render/progress-reports-within-range", fmt.Sprintf("%d of %d progress reports had frac outside (0,1] or a mean sample count outside [%d,%d]", bad, calls, minS, maxS))
+		}
+		if atomic.LoadInt64(&calls) == 0 {
+			w.behav("render3d.Render/progress-reported", "LogFunc was never called during a render of more than 1000 pixels")
+		}
+		w.count("render_progress_reports", atomic.LoadInt64(&calls))
+		w.ops(len(img.Data))
+	}
+}
+
 func wMeshing(w *wctx) {
 	s := vlib.CSG(w.rng, 3, 1)
 	delta := 0.07 + 0.03*w.rng.Float64()
@@ -648,9 +689,9 @@ func wHeightMap(w *wctx) {
 		hm := toolbox3d.NewHeightMap(sdf.Min(), sdf.Max(), 60)
 		var mu sync.Mutex
 		type op struct {
-			fill   bool
-			x, y   float64
-			r, sr  float64
+			fill  bool
+			x, y  float64
+			r, sr float64
 		}
 		var ops []op
 		depth := map[int]int{}
